@@ -153,6 +153,7 @@ def run(ctx):
     visibility_tables(ctx)
     alias_insensitive_drop(ctx, "R10-e")
     rewritten_run_is_contiguous(ctx, "R10-f")
+    flatten_never_imports_the_prefix(ctx, "R10-g")
     C = r.rule("R10-c", "group_imports: every path through one loop iteration pushes the tree into exactly one of the groups")
     gi = p.fn("rustfmt_nightly::reorder::group_imports")
     if gi is None:
@@ -349,3 +350,38 @@ def rewritten_run_is_contiguous(ctx, rid):
                             "%s: the text of the span is replaced by the rewrite of the list, so an import / mod / extern crate "
                             "inside the span but not in the list disappears" % "; ".join(bad), [c.loc()])
     r.floor(rid, n, 1, "calls of rewrite_reorderable_or_regroupable_items")
+
+
+def flatten_never_imports_the_prefix(ctx, rid):
+    """R10-g: splitting a nested list never produces a tree for a nested element that names nothing"""
+    from common import bool_branches, edge_dominates
+    p, r = ctx.p, ctx.r
+    r.rule(rid, "imports::UseTree::flatten: every UseTree it builds from `prefix ++ nested.path` is built on the false edge of an "
+                "is_empty test of that nested path — `c::{}` imports nothing, and prefix ++ [] would import the prefix itself "
+                "(`use a::{b, c::{}}` ↦ `use a; use a::b;`)")
+    f = p.named("flatten", within="imports::UseTree")
+    if f is None:
+        r.undecidable(rid, "UseTree::flatten not found")
+        return
+    n = 0
+    for bb, i, s in f.stmts():
+        if not (s[0] == "=" and s[2][0] == "agg" and isinstance(s[2][1], list) and s[2][1][0] == "adt" and s[2][1][1].endswith("imports::UseTree")):
+            continue
+        n += 1
+        guarded = False
+        for g in f.calls():
+            if not g.name.endswith("::is_empty") or not g.args or g.args[0][0] == "k":
+                continue
+            d = f.derived_from(g.args[0][1][0])
+            nested = any((x.declared or "").endswith("Iterator::next") or x.name.endswith("Iterator>::next") for x in d["calls"])
+            if not nested:
+                continue
+            for (sw, t_true, t_false) in bool_branches(f, g.dest[0]):
+                if edge_dominates(f, (sw, t_false), bb):
+                    guarded = True
+        r.instance(rid, "flatten: nested tree non-empty before prefixing", "ok" if guarded else "violation", "%s:%d" % (f.file, s[3]))
+        if not guarded:
+            r.violation(rid, "UseTree::flatten prefixes a nested tree without knowing it is non-empty",
+                        "a flattened element with an empty path (from `c::{}`) yields a tree that is just the prefix: an import of "
+                        "the prefix module that the source never had", ["%s:%d" % (f.file, s[3])])
+    r.floor(rid, n, 1, "UseTree constructions in flatten")
